@@ -35,6 +35,9 @@ def client_op(kind, variant, who):
     if variant == "kvopt" and kind == "set":
         # blind writes with options: they must still produce a new version that conditional writers see
         return {"op": "Set", "coll": COLL, "key": KEY, "body": "N100", "pres": True, "exp": "E1", "h": "h2" if who == "p2" else ""}
+    if variant == "kvadd" and kind == "set":
+        # re-creation through the insert-only entry point (meaningful after a Remove)
+        return {"op": "Add", "coll": COLL, "key": KEY, "body": "N100", "h": "h2" if who == "p2" else ""}
     if variant == "kvopt" and kind == "incr":
         return {"op": "Incr", "coll": COLL, "key": KEY, "amt": 2, "def": 0, "exp": "E1", "h": "h2" if who == "p2" else ""}
     return {
@@ -51,6 +54,9 @@ def to_case(name, scen, prog, sched, variant, mode="mem"):
     setup = [{"op": "Incr", "coll": COLL, "key": KEY, "amt": 1, "def": 0}]
     if variant == "subdoc":
         setup = [{"op": "Set", "coll": COLL, "key": KEY, "body": "J1"}]
+    if variant == "kvadd":
+        # the key starts as a tombstone: Add (and Incr) re-create it
+        setup += [{"op": "Delete", "coll": COLL, "key": KEY}]
     if variant == "xtomb":
         # the xattr operations race on a tombstone that carries a system xattr
         setup += [{"op": "SetXattrs", "coll": COLL, "key": KEY, "sets": {"_s": {"t": "x1", "mc": False, "mh": False}}},
@@ -178,10 +184,14 @@ def run(tier, seed, vh, only_paths=None, mode=None):
                 scheds = rnd.sample(tight, nt) + rnd.sample(rest, min(len(rest), limit - nt))
             for i, sc in enumerate(scheds):
                 variants = ["kv"]
+                if scen in ("join", "resume", "order") and "set" in sc["prog"].values():
+                    variants = ["kv", "kvadd"]
                 if scen in ("race", "race3"):
-                    variants = ["kv", "subdoc", "xattr", "xtomb", "kvopt"]
+                    variants = ["kv", "subdoc", "xattr", "xtomb", "kvopt", "kvadd"]
                 for v in variants:
                     if v == "kvopt" and not set(sc["prog"].values()) & {"set", "incr"}:
+                        continue
+                    if v == "kvadd" and "set" not in sc["prog"].values():
                         continue
                     if v == "subdoc" and not set(sc["prog"].values()) <= {"update", "casw", "incr"}:
                         continue
